@@ -442,6 +442,7 @@ type FnSpec struct {
 	Params     []string // for lemma / ext / iface: parameter names
 	Results    []string
 	Bounded    string // non-empty: a stated bound (this function is a bounded stand-in)
+	Uses       []*SExpr // lemma instantiations: name(args)
 	Line       int
 }
 
@@ -469,7 +470,7 @@ type ContractFile struct {
 var clauseKeywords = map[string]bool{
 	"pred": true, "func": true, "const": true, "ghost": true, "fn": true, "iface": true, "ext": true, "lemma": true,
 	"requires": true, "ensures": true, "label": true, "assigns": true, "panics": true, "loop": true,
-	"trusted": true, "pure": true, "property": true, "bounded": true, "params": true, "results": true,
+	"trusted": true, "pure": true, "property": true, "bounded": true, "params": true, "results": true, "use": true,
 }
 
 func parseContractFile(path, pkg string) (*ContractFile, error) {
@@ -570,6 +571,15 @@ func parseContractFile(path, pkg string) (*ContractFile, error) {
 				cur.Pure = true
 			case "bounded":
 				cur.Bounded = c.text
+			case "use":
+				e, err := parseSpecExpr(c.text)
+				if err != nil {
+					return nil, fail(c, err)
+				}
+				if e.Kind != "call" {
+					return nil, fail(c, fmt.Errorf("use expects lemma(args)"))
+				}
+				cur.Uses = append(cur.Uses, e)
 			case "params":
 				cur.Params = strings.Fields(strings.ReplaceAll(c.text, ",", " "))
 			case "results":
